@@ -163,6 +163,42 @@ def run(ctx):
     for _ in range(30 if ctx.tier == "quick" else 600):
         words = instgen.module_words(mg.module(size=0.5))
         reqs.append("lift " + instgen.to_bytes(words).hex())
+    # malformed variants of supported modules: an operand dropped, duplicated or replaced by an operand of another variant in a
+    # type, constant, block instruction or terminator; a constant typed by a non-numeric type. Nothing is demanded of them but
+    # that model and implementation agree on the error, the panic or the result (the error arms of lift_constant / lift_*).
+    nmal = 0
+    for _ in range(120 if ctx.tier == "quick" else 3000):
+        insts, _ = lg.module(nops=rnd.choice([2, 4]))
+        cand = [k for k, i in enumerate(insts) if i.name not in ("Capability", "MemoryModel", "Label", "Function", "FunctionEnd")]
+        if not cand:
+            continue
+        k = rnd.choice(cand)
+        i = insts[k]
+        ops = list(i.ops)
+        how = rnd.randrange(5)
+        if how == 0 and ops:
+            ops.pop(rnd.randrange(len(ops)))
+        elif how == 1 and ops:
+            ops.insert(rnd.randrange(len(ops) + 1), rnd.choice(ops))
+        elif how == 2 and ops:
+            ops[rnd.randrange(len(ops))] = instgen.Op("s", g.vix["LiteralString"], list(b"x"))
+        elif how == 3 and ops:
+            j = rnd.randrange(len(ops))
+            if ops[j].kind == "w":
+                ops[j] = instgen.Op("w", rnd.choice([g.vix["IdRef"], g.vix["LiteralBit32"], g.vix["IdScope"]]), ops[j].value)
+        else:
+            if i.rtype is not None:
+                i = instgen.Inst(i.opcode, i.name, rnd.choice([1, 2, 5, 6, 9999]), i.rid, ops)
+        insts[k] = instgen.Inst(i.opcode, i.name, i.rtype, i.rid, ops)
+        words = instgen.header(version=0x00010300, bound=10000)
+        ok = True
+        for x in insts:
+            if len(x.words()) >= 65536:
+                ok = False
+            words += x.words()
+        if ok:
+            reqs.append("lift " + instgen.to_bytes(words).hex())
+            nmal += 1
     if broken:
         found = C.oracle_search(ctx, reqs, oracle, "lift")
         ctx.log(f"tie broken; oracle search on the implementation found a failing input: {found}")
@@ -174,7 +210,7 @@ def run(ctx):
                 return canon.module(a) == b
             except (ValueError, KeyError, IndexError):
                 return False
-        return C.canon(a.split(" ")[0] + " " + " ".join(a.split(" ")[1:])) == C.canon(b)
+        return C.canon(a.strip()) == C.canon(b.strip())
     impl, model = C.differential(ctx, reqs, "lift", oracle=oracle, shrink=False, equal=equal)
     kinds = {}
     for a in impl:
@@ -182,6 +218,7 @@ def run(ctx):
         kinds[k] = kinds.get(k, 0) + 1
     ctx.distinct |= used
     ctx.coverage["outcomes"] = kinds
+    ctx.coverage["malformed_variants"] = nmal
     ctx.coverage["lift_op_opcodes_exercised"] = len(used)
     ctx.coverage["lift_op_opcodes_total"] = len(lg.op_arms)
     ctx.samples = [{"request": reqs[i][:60], "implementation": impl[i][:200]} for i in (0, len(reqs) // 2)]
